@@ -88,7 +88,10 @@ class C14(ConnProp):
                     s += rng.choice([b'x', b'\r\n', b'GET / HTTP/1.1\r\n\r\n', b'trailing bytes'])
                     exact = False
             elif r < 0.9:
-                s, _ = reqgen.gen_bad_request(rng, 51200)
+                s, bk = reqgen.gen_bad_request(rng, 51200)
+                # corruptions confined to the request line leave a slice shaped like exactly one body-less request: should
+                # a parser accept it after all, it consumes all of it, and then the two entry points must agree
+                exact = bk in ('bad-version', 'lower-method', 'bad-method', 'empty-method', 'empty-uri', 'nonutf8-uri')
             else:
                 s, _ = reqgen.gen_stream(rng, 51200, p_bad=0.2, max_req=2)
             if r < 0.55 and rng.random() < 0.08:
@@ -105,6 +108,17 @@ class C14(ConnProp):
                 n2 = len(s) + rng.choice([-1, 0, 1, 100])
                 if n2 >= 0:
                     out.append(([5, s, n2], {'kind': 'maxlen', 'pair': pair, 'len': len(s), 'n': n2}))
+        # short request lines around the one-shot parser's minimum length x version tokens cut short or extended: whatever
+        # one entry point accepts as exactly one request, the other must accept too
+        for m in reqgen.METHODS:
+            for u in (b'/', b'*', b'a', b'/a', b'/ab'):
+                for ver in (b'HTTP/1.', b'HTTP/1', b'HTTP/1.10', b'HTTP/1.1x', b'HTTP/1.01', b'HTTP/1.1 ', b'HTTP/1.1\r', b'',
+                            b'HTTP/1.2', b'http/1.1', b'HTTP/1.0', b'HTTP/1.1'):
+                    for hdr in (b'', b'X-A: b\r\n'):
+                        s = m + b' ' + u + b' ' + ver + b'\r\n' + hdr + b'\r\n'
+                        pair += 1
+                        out.append(([5, s], {'kind': 'oneshot', 'pair': pair, 'exact': True}))
+                        out.append(([6, 51200, s, [[2, 1 << 20]]], {'kind': 'conn', 'pair': pair, 'exact': True}))
         return out
 
     def oracle(self, cases, impl):
